@@ -35,6 +35,7 @@ class Entry:
         self.loops = kw.pop('loops', {})    # ordinal -> text | (iter_name, text)
         self.rewrites = kw.pop('rewrites', [])  # (id, old, new[, count])
         self.ghost = kw.pop('ghost', [])    # (anchor, 'before'|'after', text[, occurrence])
+        self.loop_ghost = kw.pop('loop_ghost', None)   # ghost text placed first in every annotated loop body
         self.props = set(kw.pop('props', ()))
         self.trusted = kw.pop('trusted', False)
         self.attrs = kw.pop('attrs', [])
@@ -82,6 +83,11 @@ class FileCtx:
     def raw(self, text, note=''):
         self.unit.entries.append(Raw(text, note))
 
+    def guard(self, fn, expected, impl=None, why=''):
+        """text guard: a function that is NOT verified but whose (comment-stripped, whitespace-
+        normalised) source text a lemma restates; if it changes the unit is undecided."""
+        self.unit.entries.append(Guard(self.rel, fn, impl, expected, why))
+
 
 class ImplGroup:
     def __init__(self, header, file):
@@ -89,6 +95,27 @@ class ImplGroup:
         self.file = file
         self.methods = []
         self.kind = 'impl'
+
+
+class Guard:
+    def __init__(self, file, fn, impl, expected, why):
+        self.file, self.fn, self.impl, self.expected, self.why = file, fn, impl, expected, why
+        self.kind = 'guard'
+
+
+def normalise_code(text):
+    rf = RustFile('<g>', text)
+    out = []
+    i = 0
+    n = len(text)
+    while i < n:
+        if text.startswith('//', i) and not rf.code[i]:
+            j = text.find('\n', i)
+            i = n if j < 0 else j
+            continue
+        out.append(text[i])
+        i += 1
+    return ' '.join(''.join(out).split())
 
 
 class Raw:
@@ -156,6 +183,7 @@ class Unit:
         self.desugar_log = []
         self.dropped = set()
         self.twin_names = []
+        self.guards_ok = []
 
         def emit_text(text, origin=None):
             for ln in text.split('\n'):
@@ -168,6 +196,27 @@ class Unit:
         for e in self.entries:
             if isinstance(e, Raw):
                 emit_text(e.text, None)
+            elif isinstance(e, Guard):
+                rf = self._rf(e.file)
+                try:
+                    if e.impl:
+                        it = None
+                        for blk in rf.find_all_impls(e.impl):
+                            try:
+                                it = rf.find_fn(e.fn, (blk['body_open'] + 1, blk['end'] - 1), rf.depth[blk['body_open']] + 1)
+                                break
+                            except KeyError:
+                                continue
+                        if it is None:
+                            raise KeyError(e.fn)
+                    else:
+                        it = rf.find_fn(e.fn, None, 0)
+                except KeyError:
+                    raise Undecided('guarded function %s not found in %s' % (e.fn, e.file))
+                got = normalise_code(rf.src[it['header_start']:it['end']])
+                if got != e.expected:
+                    raise Undecided('guarded (unverified) function %s in %s changed; %s\n  expected: %s\n  found:    %s' % (e.fn, e.file, e.why, e.expected, got))
+                self.guards_ok.append('%s:%s' % (e.file, e.fn))
             elif isinstance(e, ImplGroup):
                 rf = self._rf(e.file)
                 impls = rf.find_all_impls(e.header)
@@ -235,6 +284,8 @@ class Unit:
             text = _widen_vis(text)
         if e.kind == 'struct':
             text = _pub_fields(text)
+        if e.kind in ('struct', 'enum') and not text.lstrip().startswith('pub'):
+            text = 'pub ' + text.lstrip()     # D5: a private type becomes pub (specs must be able to name it)
         gm = re.search(r'\b(?:struct|enum)\s+' + re.escape(e.name) + r'\s*(<[^>{(;]*>)?', text)
         e.generics = (gm.group(1) or '') if gm else ''
         keep, gen = _derive_plan(e, derives)
@@ -292,7 +343,8 @@ class Unit:
             if len(loops) != getattr(e, 'expect_loops', len(loops)):
                 raise Undecided('loop count of %s changed' % e.qualname)
             for kwoff, broff, kw, itname, spec in sorted(ins, key=lambda t: -t[1]):
-                body = body[:broff] + '\n' + _indent(spec, 8) + '\n    ' + body[broff:]
+                lg = ('\n' + _indent(e.loop_ghost, 12)) if e.loop_ghost else ''
+                body = body[:broff] + '\n' + _indent(spec, 8) + '\n    {' + lg + body[broff + 1:]
                 if itname:
                     # for PAT in EXPR  ->  for PAT in itname: EXPR
                     seg = body[kwoff:broff]
@@ -301,8 +353,11 @@ class Unit:
                         raise Undecided('cannot name iterator of loop in %s' % e.qualname)
                     body = body[:kwoff + m.end()] + itname + ': ' + body[kwoff + m.end():]
         # ghost insertions (proof blocks / proof asserts; never executable code)
+        strlits = sorted(set(_string_literals(body)))
         for g in e.ghost:
             anchor, where, gtext = g[0], g[1], g[2]
+            if '@@REVEAL_STRLITS@@' in gtext:
+                gtext = gtext.replace('@@REVEAL_STRLITS@@', ' '.join('reveal_strlit(%s);' % l for l in strlits))
             occ = g[3] if len(g) > 3 else 1
             idx = -1
             pos = 0
@@ -398,13 +453,13 @@ def _derive_plan(e, derives):
     for d in rest:
         if d == 'PartialEq':
             gen.append(I('vstd::std_specs::cmp::PartialEqSpecImpl', '{ open spec fn obeys_eq_spec() -> bool { true } open spec fn eq_spec(&self, other: &%s) -> bool { *self == *other } }' % name_a))
-            gen.append(I('PartialEq', '{ #[verifier::external_body] fn eq(&self, other: &Self) -> (r: bool) { unimplemented!() } }'))
+            gen.append(I('std::cmp::PartialEq', '{ #[verifier::external_body] fn eq(&self, other: &Self) -> (r: bool) { unimplemented!() } }'))
         elif d == 'Eq':
-            gen.append(I('Eq', '{}'))
+            gen.append(I('std::cmp::Eq', '{}'))
         elif d == 'Clone':
-            gen.append(I('Clone', '{ #[verifier::external_body] fn clone(&self) -> (r: Self) ensures r == *self { unimplemented!() } }'))
+            gen.append(I('std::clone::Clone', '{ #[verifier::external_body] fn clone(&self) -> (r: Self) ensures r == *self { unimplemented!() } }'))
         elif d == 'Copy':
-            gen.append(I('Copy', '{}'))
+            gen.append(I('std::marker::Copy', '{}'))
         elif d == 'Debug':
             gen.append(I('vstd::std_specs::fmt::DebugSpecImpl', "{ open spec fn fmt_req(&self, f: &std::fmt::Formatter<'_>) -> bool { true } }"))
             gen.append(I('std::fmt::Debug', "{ #[verifier::external_body] fn fmt(&self, f: &mut std::fmt::Formatter<'_>) -> std::fmt::Result { unimplemented!() } }"))
@@ -482,3 +537,28 @@ def _pub_fields(text):
         depth += ln.split('//')[0].count('{') - ln.split('//')[0].count('}')
         out.append(ln)
     return '\n'.join(out)
+
+
+def _string_literals(text):
+    """every plain "..." literal of a code text (comments skipped)"""
+    rf = RustFile('<lits>', text)
+    out = []
+    i = 0
+    n = len(text)
+    while i < n:
+        if text[i] == '"' and not rf.code[i] and (i == 0 or rf.code[i - 1] or text[i - 1] in ' (=,'):
+            # find the end of this literal: next index where code resumes
+            j = i + 1
+            while j < n and text[j] != '"':
+                if text[j] == '\\':
+                    j += 1
+                j += 1
+            lit = text[i:j + 1]
+            # make sure we are at a literal start (not inside a comment)
+            ls = text.rfind('\n', 0, i) + 1
+            if '//' not in text[ls:i]:
+                out.append(lit)
+            i = j + 1
+        else:
+            i += 1
+    return out
